@@ -973,6 +973,114 @@ def rtc_perm(tier):
     return rec.obligations()
 
 
+# ------------------------------------------------------------------------------------------------------
+# preconditioned CG at sizes where CG does not terminate finitely: K + D with an ACTIVE pivoted-Cholesky preconditioner
+
+PCG_NAMES = ["pcg_rbf_hetero", "pcg_rbf_const", "pcg_rbf_add_jitter", "pcg_user_spectrum", "pcg_rbf_batch"]
+PCG_NOISES = [1e-2, 1.0, 1e2, 1e4]
+PCG_TOLS = [1e-2, 1e-3, 1e-4]
+
+
+def rtc_pcg(case_names, tier):
+    """K + D (AddedDiagLinearOperator) above max_cholesky_size with n >= min_preconditioning_size and
+    max_preconditioner_size in {5, 15}: the solve is CG *with* the pivoted-Cholesky preconditioner, the size (120..300, thorough
+    500) is far above the mandatory 11 iterations and the preconditioner rank, and the noise level spans 1e-2 .. 1e4 (the
+    preconditioned and the plain residual norms differ by about sqrt(noise)).  Contract (property text): the returned X has
+    mean_j ||A x_j - b_j|| / ||b_j|| within the configured cg_tolerance."""
+    import zlib
+    from contracts.rtc_common import Recorder
+    H = helpers()
+    torch, zoo, O = H.torch, H.zoo, H.O
+    f64, f32 = torch.float64, torch.float32
+    rec = Recorder(PID)
+    quick = tier == "quick"
+    base = int(__import__("os").environ.get("VERIF_SEED", "0") or 0)
+
+    def rbf(g, batch, n, s, ls):
+        x = torch.rand(*batch, n, 2, generator=g, dtype=f64)
+        d2 = (x.unsqueeze(-2) - x.unsqueeze(-3)).pow(2).sum(-1)
+        return s * torch.exp(-0.5 * d2 / ls ** 2)
+
+    def build(name, g, dt, n, noise, ls):
+        """(operator, dense oracle); K has outputscale 100 * noise, i.e. a fixed signal-to-noise ratio at every noise level"""
+        s = 100.0 * noise
+        batch = (2,) if name == "pcg_rbf_batch" else ()
+        if name == "pcg_user_spectrum":  # slowly decaying prescribed spectrum, no class-specific code in K
+            q, _ = torch.linalg.qr(torch.randn(n, n, generator=g, dtype=f64))
+            k = (q * (s * 0.97 ** torch.arange(n, dtype=f64))) @ q.mT
+            k = 0.5 * (k + k.mT)
+        else:
+            k = rbf(g, batch, n, s, ls)
+        k = k.to(dt)
+        eye = torch.eye(n, dtype=dt)
+        if name == "pcg_rbf_const":
+            v = torch.full((*batch, 1), noise, dtype=dt)
+            return O.AddedDiagLinearOperator(O.DenseLinearOperator(k), O.ConstantDiagLinearOperator(v, diag_shape=n)), k + noise * eye
+        if name == "pcg_rbf_add_jitter":
+            return O.DenseLinearOperator(k).add_jitter(noise), k + noise * eye
+        d = (noise * (0.5 + torch.rand(*batch, n, generator=g, dtype=f64))).to(dt)  # heteroskedastic
+        K = zoo._UserOp(k) if name == "pcg_user_spectrum" else O.DenseLinearOperator(k)
+        return O.AddedDiagLinearOperator(K, O.DiagLinearOperator(d)), k + torch.diag_embed(d)
+
+    sizes = [120, 300] if quick else [120, 300, 500]
+    lss = [0.1, 0.3]
+    ranks = [5, 15]
+    cnt = 0
+    for name in case_names:
+        for ni, noise in enumerate(PCG_NOISES):
+            for ti, tol in enumerate(PCG_TOLS):
+                for dt in (f64, f32):
+                    if dt == f32 and tol < 1e-3:
+                        continue  # float32 cannot meet 1e-4 reliably (see RTC_META: 'tight')
+                    grid = [(n, ls, rk) for n in sizes for ls in lss for rk in ranks]
+                    if quick:  # quick: two (size, lengthscale, rank) cells per (case, noise, tolerance, dtype), rotating through the grid
+                        cnt += 1
+                        grid = [grid[(3 * cnt) % len(grid)], grid[(3 * cnt + 5) % len(grid)]]
+                    for (n, ls, rk) in grid:
+                        entries = (("mat", "method"), ("vec", "torch")) if not quick else ((("mat", "method"),) if (cnt + n) % 3 else (("vec", "torch"),))
+                        for rk_name, entry in entries:
+                            if name == "pcg_rbf_batch":
+                                rk_name = "mat"  # a batched operator takes a matrix right-hand side
+                            lsl = "na" if name == "pcg_user_spectrum" else f"{ls:g}"
+                            label = f"{name}|{str(dt)[6:]}|b={(2,) if name == 'pcg_rbf_batch' else ()}|n={n}|noise={noise:g}|ls={lsl}|rank={rk}|cfg=pcg_tol{tol:g}|rhs={rk_name}" + ("|via=torch" if entry == "torch" else "")
+                            sd = zlib.crc32(repr((name, str(dt), n, noise, ls, base)).encode()) % (2 ** 31)
+                            g = zoo.gen(sd)
+                            try:
+                                op, D = build(name, g, dt, n, noise, ls)
+                            except Exception as e:  # noqa
+                                rec.check(f"construct/{name}", label, False, f"constructor raised {e!r}"[:300])
+                                continue
+                            batch = tuple(D.shape[:-2])
+                            B = zoo.rn(g, *batch, n, 3, dtype=dt) if rk_name == "mat" else zoo.rn(g, n, dtype=dt)
+                            cfg = {"mc": 0, "min_pc": 10, "max_pc": rk, "cg_tol": tol, "max_cg": 10 * n}
+                            torch.manual_seed(1234)
+                            with H.cfg_ctx(cfg, n, dt), H.LogCapture() as lc, H.WarnCapture() as wc:
+                                ok, X = rec.guard(f"solve_pcg/{name}", label, (lambda: op.solve(B)) if entry == "method" else (lambda: torch.linalg.solve(op, B)))
+                            if not ok:
+                                continue
+                            es = (*batch, n, 3) if rk_name == "mat" else (n,)
+                            good = torch.is_tensor(X) and tuple(X.shape) == tuple(es) and X.dtype == dt and bool(torch.isfinite(X).all())
+                            rec.check(f"solve_pcg/{name}", label, good, f"shape/dtype/finite: {tuple(X.shape) if torch.is_tensor(X) else type(X)} {getattr(X, 'dtype', None)} expected {tuple(es)} {dt}")
+                            if not good:
+                                continue
+                            # the cell under test really is CG + pivoted-Cholesky preconditioner (otherwise the evaluation is vacuous)
+                            rec.check(f"solve_pcg_route/{name}", label, "cg" in lc.algos and "pivchol" in lc.algos, f"expected CG with the pivoted-Cholesky preconditioner; log: {lc.msgs[:3]}")
+                            Xm = X.unsqueeze(-1) if B.dim() == 1 else X
+                            r = H.cg_mean_rel_residual(D.to(f64), Xm, H.mat(B))
+                            floor = 2e-5 if dt == f64 else 2e-3
+                            # linear_cg stops on the recursively updated residual; the true one differs by rounding only: head-room factor 2
+                            bound = 2.0 * max(tol, floor)
+                            if wc.cg_not_converged:
+                                # the solver itself reports that it did not reach the tolerance within 10 N iterations: no head-room here,
+                                # the answer is accepted only if it nevertheless meets the configured tolerance
+                                rec.check(f"solve_pcg_gave_up/{name}", label, r <= max(tol, floor),
+                                          f"preconditioned CG gave up (NumericalWarning) after max_cg_iterations={10 * n} = 10 N at mean relative residual {r:.2e} > {max(tol, floor):.1e} "
+                                          f"although cg_tolerance={tol:g} is above the solver's ~1e-5 floor")
+                            else:
+                                rec.check(f"solve_pcg/{name}", label, r <= bound, f"preconditioned CG reported convergence but mean_j ||A x_j - b_j||/||b_j|| = {r:.3e} > 2*max(cg_tolerance={tol:g}, floor {floor:g})")
+    return rec.obligations()
+
+
 def _chunks(names, k):
     return [names[i:i + k] for i in range(0, len(names), k)]
 
@@ -985,6 +1093,8 @@ def rtc_units(tier):
     for ch in _chunks(ALL_NAMES, 35):
         us.append(Unit(f"C04/rtc/entry_history[{ch[0]}..{ch[-1]}]", mod, "rtc_solve_entry_history", (ch, tier), engine="rtc", timeout_s=1500))
     us.append(Unit("C04/rtc/default_dtype+perm", mod, "rtc_dtype_default_and_perm", (ALL_NAMES, tier), engine="rtc", timeout_s=1500))
+    us.append(Unit("C04/rtc/pcg[pcg_rbf_hetero,pcg_rbf_const,pcg_rbf_batch]", mod, "rtc_pcg", (["pcg_rbf_hetero", "pcg_rbf_const", "pcg_rbf_batch"], tier), engine="rtc", timeout_s=1500))
+    us.append(Unit("C04/rtc/pcg[pcg_rbf_add_jitter,pcg_user_spectrum]", mod, "rtc_pcg", (["pcg_rbf_add_jitter", "pcg_user_spectrum"], tier), engine="rtc", timeout_s=1500))
     us.append(Unit("C04/rtc/triangular", mod, "rtc_triangular", (TRI_NAMES, tier), engine="rtc", timeout_s=1500))
     return us
 
@@ -1008,6 +1118,9 @@ RTC_META = {
         "cg_tolerance 'tight' = 1e-7 (float64) / 1e-4 (float32): float32 cannot meet a tighter tolerance and would burn all 1000 iterations",
         "with a non-invertible left factor the forward error bound kappa*tau is used",
         "method selection (no CG when fast solves are off or N <= max_cholesky_size) is taken from the settings documentation",
+        "pcg units (sizes where CG does not terminate finitely, active pivoted-Cholesky preconditioner): mean_j ||A x_j-b_j||/||b_j|| <= 2*max(cg_tolerance, floor); "
+        "the factor 2 is head-room for the recursively updated residual the solver tests versus the true one; a solve that gives up with the solver's own "
+        "NumericalWarning after 10 N iterations is accepted only if it nevertheless meets max(cg_tolerance, floor)",
     ],
     "families": "28 PSD zoo cases + 42 local PSD cases (geometric/clustered/uniform spectra, kappa up to 1e6 direct / 1e4 CG, Kronecker "
                 "x3, Kronecker+diag variants, inverse-of-Cholesky, Cholesky-of-structured, block/repeat/expand nestings, SKI, kernel) x "
@@ -1016,5 +1129,9 @@ RTC_META = {
                 "preconditioner size 0/3/15, min_preconditioning_size, memory_efficient, linalg dtypes) x rhs {vec, mat, 1-col, batched, "
                 "size-1 broadcast, fewer batch dims, mixed, extra batch} x left {none, orthogonal, 2xN, batched}; entry points op.solve / "
                 "torch.linalg.solve / linear_operator.solve; histories (cholesky/root/solve/logdet first); default dtype float64 with "
-                "float32 operators; 15 triangular cases in both orientations incl. solve_triangular and _cholesky_solve; permutation solve.",
+                "float32 operators; 15 triangular cases in both orientations incl. solve_triangular and _cholesky_solve; permutation solve; "
+                "preconditioned CG (pcg units): K + D with RBF / prescribed-spectrum K (signal = 100 x noise), heteroskedastic / constant / add_jitter noise, "
+                "batch {(),(2,)}, n {120,300} (+500 thorough), noise {1e-2,1,1e2,1e4}, rbf lengthscale {0.1,0.3}, max_preconditioner_size {5,15} with "
+                "min_preconditioning_size 10, cg_tolerance {1e-2,1e-3,1e-4}, f64 + f32, matrix / vector rhs, op.solve / torch.linalg.solve "
+                "(quick: two (n, lengthscale, rank) cells per (case, noise, tolerance, dtype)).",
 }
